@@ -34,7 +34,7 @@ fn is_id_char(c: u8) -> bool {
     c.is_ascii_alphanumeric() || c == b'_' || c == b'$'
 }
 fn is_ws(c: u8) -> bool {
-    c == b' ' || c == b'\t' || c == b'\r' || c == b'\n'
+    c == b' ' || c == b'\t' || c == b'\r' || c == b'\n' || c == 0x0c
 }
 
 /// Scan `s`; whitespace is skipped, comments are tokens.
